@@ -2351,7 +2351,23 @@ evhttp_get_body_length(struct evhttp_request *req)
 		req->ntoread = -1;
 	} else {
 		char *endp;
-		ev_int64_t ntoread = evutil_strtoll(content_length, &endp, 10);
+		ev_int64_t ntoread;
+		struct evkeyval *header;
+		const char *cp;
+		/* Content-Length = 1*DIGIT: strtoll() alone would also take
+		 * a sign or leading white space */
+		for (cp = content_length; *cp; ++cp) {
+			if (!EVUTIL_ISDIGIT_(*cp))
+				return (-1);
+		}
+		/* several Content-Length fields that do not agree make the
+		 * length of the message anybody's guess */
+		TAILQ_FOREACH(header, headers, next) {
+			if (evutil_ascii_strcasecmp(header->key, "Content-Length") == 0 &&
+			    strcmp(header->value, content_length) != 0)
+				return (-1);
+		}
+		ntoread = evutil_strtoll(content_length, &endp, 10);
 		if (*content_length == '\0' || *endp != '\0' || ntoread < 0) {
 			event_debug(("%s: illegal content length: %s",
 				__func__, content_length));
